@@ -939,6 +939,72 @@ def _cands(case):
 
 
 # ----------------------------------------------------------------------------------------
+# source tie: the Python text of forward / check_input / score, translated (harness/py2coq) and interpreted in Coq
+# ----------------------------------------------------------------------------------------
+IMPORTS_SRC = IMPORTS + "From PV Require C20.SrcRun.\n"
+SRC_TIE_CAP = 420
+SRC_THEOREMS = ["c20_source_forward_is_model", "c20_source_forward_rejects", "c20_source_check_input_is_legal",
+                "c20_source_dot_score_is_model", "c20_source_general_score_is_model",
+                "c20_source_attention_in_kept_range", "c20_source_attention_blind_to_masked"]
+
+
+def _src_tie_eligible(case):
+    """single-head dot-product / generalised dot-product cases (every stream: the scripted / traced / keyword entries
+    must give what eager CPython gives); concat and mha are not translated"""
+    return case["flavour"] in ("dot", "general")
+
+
+def src_term(case, res):
+    """SrcRun.src_attend_check on the very arguments of the model term (same exp table, same tolerance)"""
+    t = model_term(case, res)
+    assert t.startswith("(check_single ")
+    return "(SrcRun.src_attend_check " + t[len("(check_single "):]
+
+
+def source_tie(chk, cases, results):
+    """run the translated source inside Coq on (a sample of) the single-head cases of this run: validates the translator,
+    MiniPy's semantics, ext20 and the MiniTorch.OpsC20 definitions against CPython + torch; independent of whether the
+    tie lemmas still compile"""
+    import time
+    from vlib import CoqError
+    idx = [i for i, c in enumerate(cases) if _src_tie_eligible(c)]
+    total = len(idx)
+    if len(idx) > SRC_TIE_CAP:  # evenly spaced sample
+        idx = [idx[(j * len(idx)) // SRC_TIE_CAP] for j in range(SRC_TIE_CAP)]
+    if not idx:
+        chk.extra["source_tie_run"] = {"cases": 0, "disagreements": 0}
+        return
+    t0 = time.time()
+    try:
+        terms = [src_term(cases[i], results[i]) for i in idx]
+        oks = coq_eval_bools(chk.workdir, IMPORTS_SRC, terms, shard=max(10, -(-len(terms) // 16)), tag="src")
+    except (CoqError, AssertionError) as e:
+        chk.extra["source_tie_run"] = "not evaluated: " + str(e)[-400:]
+        return
+    bad = [i for i, ok in zip(idx, oks) if not ok]
+    sel = [cases[i] for i in idx]
+    chk.extra["source_tie_run"] = {
+        "cases": len(idx), "eligible": total, "disagreements": len(bad), "wall_s": round(time.time() - t0, 1),
+        "dot": sum(1 for c in sel if c["flavour"] == "dot"), "general": sum(1 for c in sel if c["flavour"] == "general"),
+        "masked": sum(1 for c in sel if c.get("mshape") is not None),
+        "negative_dim": sum(1 for c in sel if c["dim"] < 0),
+        "raising": sum(1 for i in idx if results[i]["out"] is None),
+        "key_ranks": sorted({len(c["kshape"]) for c in sel}),
+        "entries_other_than_eager": sum(1 for c in sel if c.get("script") or c.get("trace") or c.get("kwcall"))}
+    chk.count("source_tie_cases", len(idx))
+    if bad:
+        i = min(bad, key=lambda j: len(json.dumps(cases[j])))
+        chk.report({"case": cases[i], "impl": _summ(results[i]),
+                    "what": "the Python source of GlobalSoftAttention.forward / check_input and the score method as translated "
+                            "to MiniPy and interpreted in Coq (PV.C20.SrcRun.src_attend, torch calls = PV.MiniTorch.OpsC20, "
+                            "exp = the run's oracle table) does not reproduce the implementation's output: translator / "
+                            "interpreter / ext20 / MiniTorch no longer describe the code",
+                    "disagreeing_cases": len(bad),
+                    "correspondence": "tie:C20:py2coq+MiniPy.Interp+MiniTorch:GlobalSoftAttention.forward",
+                    "theorems_at_stake": SRC_THEOREMS}, no_failing_input=True)
+
+
+# ----------------------------------------------------------------------------------------
 # run / replay
 # ----------------------------------------------------------------------------------------
 def evaluate(chk, cases, tag="cases"):
@@ -1122,6 +1188,7 @@ def run(chk, cases=None):
         out = report_case(chk, c, r, ok, rel, allow_nfi=not any_concrete_unknown)
         if rel and out == "violation":
             any_concrete_unknown = True
+    source_tie(chk, cases, results)
     return bad
 
 
